@@ -704,7 +704,7 @@ def run(ctx):
         if r.panicked:
             dstat["panics"] += 1
             ctx.note("diverse world: Go panic (C09 owns this): " + (r.err or "")[-200:].replace("\n", " | "))
-    for k in ("zero", "with_write", "recursive", "stage_failed", "blocked", "missing", "shared_file"):
+    for k in ("zero", "with_write", "recursive", "stage_failed", "shared_file") + (("blocked", "missing", "forced", "exclude", "failpoint") if ndiv >= 1000 else ()):
         if ndiv >= 100 and dstat[k] == 0:
             raise MachineryError(f"vacuity: no diverse run with {k}")
     ctx.cov["evaluations"] += len(druns)
